@@ -353,11 +353,32 @@ func ruleFeatureTables(c *core.Ctx) {
 	// every HasFeature(f, v) in the repository uses a valid constant pair
 	n := 0
 	for _, s := range index(c).Sites {
-		if s.Callee.Name() != "HasFeature" || len(s.Call.Args) != 2 {
+		helper := astx.FeatureHelpers[s.Callee]
+		if helper == nil {
+			helper = astx.FeatureHelpers[s.Callee.Origin()]
+		}
+		if helper != nil && helper.FeatArg < 0 && helper.ValArg < 0 {
+			helper = nil // a constant wrapper: its own HasFeature call is checked
+		}
+		if helper == nil && (s.Callee.Name() != "HasFeature" || len(s.Call.Args) != 2) {
+			continue
+		}
+		if helper == nil && s.EnclObj != nil {
+			// the HasFeature call of a parameterised wrapper is checked at the wrapper's call sites
+			if h := astx.FeatureHelpers[s.EnclObj]; h != nil && (h.FeatArg >= 0 || h.ValArg >= 0) {
+				continue
+			}
+		}
+		if strings.HasSuffix(c.Prog().Rel(s.Call.Pos()), "_test.go") && helper != nil {
 			continue
 		}
 		n++
-		ft := astx.AsFeatureTest(s.Pkg.TypesInfo, s.Call)
+		var ft *astx.FeatureTest
+		if helper != nil {
+			ft, _ = astx.HelperTest(s.Pkg.TypesInfo, s.Call)
+		} else {
+			ft = astx.AsFeatureTest(s.Pkg.TypesInfo, s.Call)
+		}
 		key := fmt.Sprintf("%s:HasFeature", astx.FuncKey(s.EnclObj))
 		if ft == nil {
 			c.Unknown("EXH/features", key+":non-constant", pos(c, s.Call), "HasFeature called with non-constant arguments")
